@@ -1,5 +1,6 @@
 use crate::util::{Ctx, Report};
 
+pub mod c02;
 pub mod c03;
 pub mod c05;
 pub mod c07;
@@ -12,6 +13,7 @@ pub mod c16;
 
 pub fn run(id: &str, ctx: &Ctx) -> Report {
     match id {
+        "C02" => c02::run(ctx),
         "C03" => c03::run(ctx),
         "C04" => c03::run_c04(ctx),
         "C05" => c05::run(ctx),
